@@ -98,6 +98,12 @@ func discharge(o *Obligation, dir string, quickS, fullS int, agree bool) {
 	o.smtSize = len(txt)
 	t0 := time.Now()
 	defer func() { o.Time = time.Since(t0).Seconds() }()
+	if o.Expect == "reach" {
+		// vacuity probe: only a quick 'unsat' matters
+		r := runSolver(context.Background(), solvers[0], 2, file)
+		o.Verdict, o.Solver = r.verdict, r.solver
+		return
+	}
 	// stage 1: z3-new alone, short
 	r := runSolver(context.Background(), solvers[0], quickS, file)
 	if r.verdict == "unsat" || r.verdict == "sat" {
